@@ -69,7 +69,7 @@ def kindOf : Instr Table TInstr → List Nat → String
   | .rms _ pend, _ => s!"rm:{showTable (pend.headD [])}"
   | .client (.read _), _ => "read"
   | .client .write, _ => "write"
-  | .client (.save _), _ => "write"
+  | .client (.save _ _), _ => "write"
 
 def showGets (t : Table) (nkeys : Nat) : String :=
   ",".intercalate ((List.range nkeys).map fun k => match getValue t k with
@@ -86,11 +86,11 @@ def describe (nkeys : Nat) (s t : TState) : Event TInstr → String
         | [] => "?"
       | none => "?"
     let done := match t.procs[pid]? with
-      | some p => if p.instrs.isEmpty then s!" ret={showTable p.loc} get={showGets p.loc nkeys}" else ""
+      | some p => if p.instrs.isEmpty then s!" ret={showTable p.loc.held} get={showGets p.loc.held nkeys}" else ""
       | none => ""
     s!"{kind} {showHeads t.heads}{done}"
 
-def trace (working : Bool) (nkeys : Nat) (cl : Client Table TInstr Table) :
+def trace (working : Bool) (nkeys : Nat) (cl : Client Table TInstr TLoc) :
     TState → Nat → List (Event TInstr) → List String → List String
   | _, _, [], acc => acc.reverse
   | s, i, e :: es, acc =>
@@ -105,7 +105,7 @@ def handle : List String → Option String
     let np ← np.toNat?
     let nk ← nk.toNat?
     let evs ← (evs.splitOn "/").mapM parseEvent
-    let s0 : TState := init [] (List.replicate np [])
+    let s0 : TState := init [] (List.replicate np { held := [], cur := [] })
     some (";".intercalate (trace (w != 0) nk (tableClient JjModel.Generated.tableGuardEq) s0 0 evs []))
   | ["save", t, es] => do
     let t ← parseTable t
